@@ -902,6 +902,8 @@ func cmdBSI(args []string) {
 			e.k, e.big = 70, true
 		} else if e.impl == 64 && r.Intn(8) == 0 && !bulk {
 			e.k, e.big = 60, true // values fit int64, sums of several do not: the big-value API must stay exact
+		} else if e.impl == 64 && r.Intn(7) == 0 && !bulk {
+			e.k, e.big = pick(r, []uint{61, 61, 62, 63}), true // values straddle the int64 limits: indexes of exactly 64, 65, 66 planes
 		} else if e.impl == 64 && r.Intn(5) == 0 {
 			e.big = true
 		}
@@ -1220,6 +1222,8 @@ func replayBSI(path string, seed int64, first, only, mod, rem int, sample float6
 		e.k = pick(r, []uint{0, 0, 1, 3, 7, 20, 31, 40, 55})
 		if e.impl == 64 && r.Intn(6) == 0 {
 			e.k, e.big = 70, true
+		} else if e.impl == 64 && r.Intn(7) == 0 {
+			e.k, e.big = pick(r, []uint{61, 61, 62, 63}), true
 		} else if e.impl == 64 && r.Intn(5) == 0 {
 			e.big = true
 		}
